@@ -26,7 +26,7 @@ def handle (req : Sexp) : Sexp :=
   let r : Option Sexp := match req with
     | .list [.atom "order", t] => do
       let b ← getBox 64 t
-      some (.list [.atom "ok", putEvs (paintOrder b), putEvs (specOrder b), putEvs (specOrderQ b)])
+      some (.list [.atom "ok", putEvs (paintOrder b), putEvs (specOrder b)])
     | .list (.atom "sortz" :: xs) => do
       let xs ← xs.mapM fun
         | .list [z, i] => do some ((← z.asInt?), [((← i.asNat?), Layer.background)])
